@@ -3,6 +3,7 @@ package parser
 import (
 	"fmt"
 	"go/ast"
+	goparser "go/parser"
 	"go/token"
 	"go/types"
 	"regexp"
@@ -131,6 +132,11 @@ func (p *Parser) parseNotationInComments(notations []*ast.Comment, validOps map[
 			m = reLiteral.FindStringSubmatch(m[2])
 			if len(m) < 2 {
 				return logger.Errorf("%v: needs <dst> <literal> args", p.fset.Position(n.Pos()))
+			}
+			if _, err := goparser.ParseExpr(m[1]); err != nil {
+				// The text is copied into the function as it is: what is not an expression would only be
+				// reported by the formatter, with a position in the file that is then never written.
+				return logger.Errorf("%v: the literal %v is not a Go expression", p.fset.Position(n.Pos()), m[1])
 			}
 			setter := option.NewLiteralSetter(args[0], m[1], n.Pos())
 			opts.Literals = append(opts.Literals, setter)
